@@ -147,7 +147,7 @@ type checkResult struct {
 	solverUsed map[string]int
 }
 
-func (w *World) runProperty(prop string, fns []string, smtDir string, perCheckMs int) *checkResult {
+func (w *World) runProperty(props []string, fns []string, smtDir string, perCheckMs int) *checkResult {
 	res := &checkResult{obls: map[string]*obligation{}, errors: map[string][]string{}, notes: map[string]bool{}, inlined: map[string]bool{}, solverUsed: map[string]int{}}
 	for _, key := range fns {
 		fn := w.funcs[key]
@@ -157,9 +157,21 @@ func (w *World) runProperty(prop string, fns []string, smtDir string, perCheckMs
 			res.underSpec = append(res.underSpec, key)
 		}
 	}
-	// lemmas of this property
-	lx := w.lemmaExec(prop)
-	if lx != nil {
+	// lemmas of these properties (each lemma once)
+	seenLemma := map[string]bool{}
+	for _, prop := range props {
+		lx := w.lemmaExec(prop)
+		if lx == nil {
+			continue
+		}
+		var keep []*Goal
+		for _, g := range lx.goals {
+			if !seenLemma[g.name] {
+				seenLemma[g.name] = true
+				keep = append(keep, g)
+			}
+		}
+		lx.goals = keep
 		res.execs = append(res.execs, lx)
 	}
 	dischargeAll(res.execs, smtDir, perCheckMs, 16)
@@ -327,21 +339,59 @@ func cmdCheck(args []string) {
 		perCheck = 60000
 	}
 	os.MkdirAll("/root/scratch/digvc", 0o755)
-	smtDir, derr := os.MkdirTemp("/root/scratch/digvc", *prop+"-")
+	smtDir, derr := os.MkdirTemp("/root/scratch/digvc", strings.ReplaceAll(*prop, ",", "_")+"-")
 	if derr != nil {
-		smtDir = filepath.Join(os.TempDir(), fmt.Sprintf("digvc-%s-%d", *prop, os.Getpid()))
+		smtDir = filepath.Join(os.TempDir(), fmt.Sprintf("digvc-%d", os.Getpid()))
 	}
-	fns := w.functionsFor(*prop)
+	// several properties in one run (development aid: --property C01,C02 or all):
+	// every function is verified once, the results are reported per property
+	props := strings.Split(*prop, ",")
+	if *prop == "all" {
+		props = nil
+		l := readLock(filepath.Join(*verif, "obligations.lock"))
+		for p, v := range l.Properties {
+			if len(v) > 0 {
+				props = append(props, p)
+			}
+		}
+		sort.Strings(props)
+	}
 	lock0 := readLock(filepath.Join(*verif, "obligations.lock"))
+	fnSet := map[string]bool{}
+	var allFns []string
+	for _, p := range props {
+		for _, f := range w.functionsFor(p) {
+			if !fnSet[f] {
+				fnSet[f] = true
+				allFns = append(allFns, f)
+			}
+		}
+	}
+	sort.Strings(allFns)
 	if !*updateLock {
 		// only claimed obligations get the expensive second-chance solvers
 		claimedSet := map[string]bool{}
-		for _, n := range lock0.Properties[*prop] {
-			claimedSet[n] = true
+		for _, p := range props {
+			for _, n := range lock0.Properties[p] {
+				claimedSet[n] = true
+			}
 		}
 		retryFilter = func(g *Goal) bool { return claimedSet[g.name] }
 	}
-	res := w.runProperty(*prop, fns, smtDir, perCheck)
+	res := w.runProperty(props, allFns, smtDir, perCheck)
+	exitAll := 0
+	for _, onep := range props {
+		if e := reportOne(w, onep, res, *verif, *outDir, *tier, seed, *repo, *updateLock, perCheck, t0); e > exitAll {
+			exitAll = e
+		}
+	}
+	os.RemoveAll(smtDir)
+	os.Exit(exitAll)
+}
+
+func reportOne(w *World, propID string, res *checkResult, verifD, outD, tierS string, seed int, repoD string, updLock bool, perCheck int, t0 time.Time) int {
+	prop, verif, outDir, tier, repo, updateLock := &propID, &verifD, &outD, &tierS, &repoD, &updLock
+	fns := w.functionsFor(*prop)
 	scans := w.runScans(*prop)
 	lock := readLock(filepath.Join(*verif, "obligations.lock"))
 	findings := readFindings(filepath.Join(*verif, "known_findings.json"))
@@ -487,8 +537,7 @@ func cmdCheck(args []string) {
 			}
 		}
 	}
-	os.RemoveAll(smtDir)
-	os.Exit(exit)
+	return exit
 }
 
 func reportLoadFailure(verif, out, prop, tier string, seed int, err error, t0 time.Time) {
